@@ -1,4 +1,6 @@
 import TunnelModel.Generated.Locks
+import Proofs.Lemmas.LockTable
+import Proofs.Lemmas.Lockset
 /-!
   C15 — data-race freedom and thread safety (PARTIAL: lock discipline,
   publication discipline and lock-order acyclicity of the code as extracted
@@ -16,148 +18,68 @@ import TunnelModel.Generated.Locks
 namespace Proofs.C15
 open TunnelModel.Generated
 
-/-- how a field is protected -/
-inductive Prot where
-  | init                                   -- written only while the object is being constructed (before it is shared); read freely
-  | mutex (l : String)                     -- every access outside construction holds this mutex
-  | atomic                                 -- every access is an atomic method (or construction)
-  | lock                                   -- the field is a mutex / wait-group / once / cond: only its own methods are used
-  | chan                                   -- channel used only through send / receive / close (creation in construction)
-  | published (writers readers : List String)
-      -- written only in `writers` (each write ordered before a publication barrier by the
-      -- micro-model / code order named in DESIGN.md), read only in `readers` after that barrier
-  deriving Repr
-
-/-- functions in which an object is constructed and not yet shared -/
-def ctors : List String :=
-  ["newTunnelChannel", "serveTunnel", "tunnelServer.createStream", "tunnelChannel.allocateStream",
-   "newSender", "newReceiver", "newReceiverWithoutFlowControl", "newSenderWithoutFlowControl",
-   "newReverseChannels", "NewTunnelServiceHandler", "NewReverseTunnelServer",
-   "pendingChannel.Start", "newReverseChannel", "ReverseTunnelServer.Serve", "TunnelServiceHandler.openTunnel"]
-
-def obeys (p : Prot) (a : Access) : Bool :=
-  a.inLiteral ||
-  match p with
-  | .init => !a.write || ctors.contains a.fn
-  | .mutex l => a.held.contains l || (ctors.contains a.fn && a.how == "plain" && a.strct != "tunnelChannel" && a.strct != "tunnelServer")
-  | .atomic => a.how == "atomic"
-  | .lock => a.how == "lockop" || !a.write
-  | .chan => a.how == "chan-recv" || a.how == "chan-close" || a.how == "chan" || !a.write || a.held != []
-  | .published ws rs => if a.write then ws.contains a.fn else (rs.contains a.fn || ws.contains a.fn)
-
-/-- the protections table (DESIGN.md appendix G), keyed by struct and field -/
-def protections : List ((String × String) × Prot) := [
-  -- tunnelChannel
-  (("tunnelChannel", "stream"), .init), (("tunnelChannel", "tunnelMetadata"), .init),
-  (("tunnelChannel", "serverSendsSettings"), .init), (("tunnelChannel", "tunnelOpts"), .init),
-  (("tunnelChannel", "ctx"), .init), (("tunnelChannel", "cancel"), .init), (("tunnelChannel", "tearDown"), .init),
-  (("tunnelChannel", "awaitSettings"), .chan),
-  -- written by recvLoop before close(awaitSettings); read by newStream / allocateStream, which run only after
-  -- newTunnelChannel returned: behind awaitSettings, or (ctx.Done arm) behind the `finished` check under mu
-  (("tunnelChannel", "settings"), .published ["tunnelChannel.recvLoop"] ["tunnelChannel.allocateStream"]),
-  (("tunnelChannel", "useRevision"), .published ["tunnelChannel.recvLoop"] ["tunnelChannel.allocateStream", "tunnelChannel.newStream"]),
-  (("tunnelChannel", "mu"), .lock), (("tunnelChannel", "streamCreation"), .lock),
-  (("tunnelChannel", "streams"), .mutex "tunnelChannel.mu"), (("tunnelChannel", "lastStreamID"), .mutex "tunnelChannel.mu"),
-  (("tunnelChannel", "streamCreated"), .mutex "tunnelChannel.mu"), (("tunnelChannel", "err"), .mutex "tunnelChannel.mu"),
-  (("tunnelChannel", "finished"), .mutex "tunnelChannel.mu"),
-  -- tunnelClientStream
-  (("tunnelClientStream", "ctx"), .init), (("tunnelClientStream", "cancel"), .init), (("tunnelClientStream", "ch"), .init),
-  (("tunnelClientStream", "streamID"), .init), (("tunnelClientStream", "method"), .init), (("tunnelClientStream", "stream"), .init),
-  (("tunnelClientStream", "headersTargets"), .init), (("tunnelClientStream", "trailersTargets"), .init),
-  (("tunnelClientStream", "isClientStream"), .init), (("tunnelClientStream", "isServerStream"), .init),
-  (("tunnelClientStream", "sender"), .init), (("tunnelClientStream", "receiver"), .init),
-  (("tunnelClientStream", "gotHeadersSignal"), .chan), (("tunnelClientStream", "doneSignal"), .chan),
-  (("tunnelClientStream", "done"), .atomic),
-  (("tunnelClientStream", "metaMu"), .lock), (("tunnelClientStream", "readMu"), .lock), (("tunnelClientStream", "writeMu"), .lock),
-  (("tunnelClientStream", "gotHeaders"), .mutex "tunnelClientStream.metaMu"),
-  -- written under metaMu before close(gotHeadersSignal); read by Header() after receiving from it
-  (("tunnelClientStream", "headers"), .published ["tunnelClientStream.acceptServerFrame"] ["tunnelClientStream.Header"]),
-  -- written under metaMu before close(doneSignal); read by Trailer() after receiving from it
-  (("tunnelClientStream", "trailers"), .published ["tunnelClientStream.finishStream"] ["tunnelClientStream.Trailer"]),
-  (("tunnelClientStream", "readErr"), .mutex "tunnelClientStream.readMu"),
-  (("tunnelClientStream", "numSent"), .mutex "tunnelClientStream.writeMu"),
-  (("tunnelClientStream", "halfClosed"), .mutex "tunnelClientStream.writeMu"),
-  -- tunnelServer
-  (("tunnelServer", "stream"), .init), (("tunnelServer", "services"), .init), (("tunnelServer", "clientAcceptsSettings"), .init),
-  (("tunnelServer", "tunnelOpts"), .init), (("tunnelServer", "isClosing"), .init),
-  (("tunnelServer", "mu"), .lock),
-  (("tunnelServer", "streams"), .mutex "tunnelServer.mu"), (("tunnelServer", "lastSeen"), .mutex "tunnelServer.mu"),
-  -- tunnelServerStream
-  (("tunnelServerStream", "ctx"), .init), (("tunnelServerStream", "cancel"), .init), (("tunnelServerStream", "svr"), .init),
-  (("tunnelServerStream", "streamID"), .init), (("tunnelServerStream", "method"), .init), (("tunnelServerStream", "stream"), .init),
-  (("tunnelServerStream", "isClientStream"), .init), (("tunnelServerStream", "isServerStream"), .init),
-  (("tunnelServerStream", "sender"), .init), (("tunnelServerStream", "receiver"), .init),
-  (("tunnelServerStream", "halfClosed"), .atomic),
-  (("tunnelServerStream", "readMu"), .lock), (("tunnelServerStream", "writeMu"), .lock),
-  (("tunnelServerStream", "readErr"), .mutex "tunnelServerStream.readMu"),
-  (("tunnelServerStream", "numSent"), .mutex "tunnelServerStream.writeMu"),
-  (("tunnelServerStream", "headers"), .mutex "tunnelServerStream.writeMu"),
-  (("tunnelServerStream", "trailers"), .mutex "tunnelServerStream.writeMu"),
-  (("tunnelServerStream", "sentHeaders"), .mutex "tunnelServerStream.writeMu"),
-  (("tunnelServerStream", "closed"), .mutex "tunnelServerStream.writeMu"),
-  -- flow control
-  (("defaultSender", "ctx"), .init), (("defaultSender", "sendFunc"), .init), (("defaultSender", "windowUpdates"), .chan),
-  (("defaultSender", "currentWindow"), .atomic), (("defaultSender", "mu"), .lock),
-  (("defaultReceiver", "measure"), .init), (("defaultReceiver", "updateWindow"), .init),
-  (("defaultReceiver", "mu"), .lock), (("defaultReceiver", "cond"), .mutex "defaultReceiver.mu"),
-  (("defaultReceiver", "closed"), .mutex "defaultReceiver.mu"), (("defaultReceiver", "cancelled"), .mutex "defaultReceiver.mu"),
-  (("defaultReceiver", "items"), .mutex "defaultReceiver.mu"), (("defaultReceiver", "currentWindow"), .mutex "defaultReceiver.mu"),
-  (("noFlowControlSender", "sendFunc"), .init), (("noFlowControlSender", "mu"), .lock),
-  (("noFlowControlReceiver", "ctx"), .init), (("noFlowControlReceiver", "ingestMu"), .lock),
-  (("noFlowControlReceiver", "ch"), .chan), (("noFlowControlReceiver", "closed"), .chan), (("noFlowControlReceiver", "doClose"), .lock),
-  -- registry and servers
-  (("reverseChannels", "mu"), .lock), (("reverseChannels", "avail"), .mutex "reverseChannels.mu"),
-  (("reverseChannels", "chans"), .mutex "reverseChannels.mu"), (("reverseChannels", "idx"), .mutex "reverseChannels.mu"),
-  (("TunnelServiceHandler", "handlers"), .init), (("TunnelServiceHandler", "noReverseTunnels"), .init),
-  (("TunnelServiceHandler", "onReverseTunnelConnect"), .init), (("TunnelServiceHandler", "onReverseTunnelDisconnect"), .init),
-  (("TunnelServiceHandler", "affinityKey"), .init), (("TunnelServiceHandler", "tunnelOpts"), .init),
-  (("TunnelServiceHandler", "reverse"), .init), (("TunnelServiceHandler", "mu"), .lock),
-  (("TunnelServiceHandler", "reverseByKey"), .mutex "TunnelServiceHandler.mu"),
-  -- `stopping.Load` is passed as a method value (an atomic load); the store is atomic
-  (("TunnelServiceHandler", "stopping"), .published ["TunnelServiceHandler.InitiateShutdown"] ["TunnelServiceHandler.openTunnel"]),
-  (("ReverseTunnelServer", "stub"), .init), (("ReverseTunnelServer", "opts"), .init), (("ReverseTunnelServer", "handlers"), .init),
-  (("ReverseTunnelServer", "mu"), .lock), (("ReverseTunnelServer", "wg"), .lock),
-  (("ReverseTunnelServer", "instances"), .mutex "ReverseTunnelServer.mu"), (("ReverseTunnelServer", "state"), .mutex "ReverseTunnelServer.mu"),
-  -- thread-safe carrier wrappers: the embedded stream is used for sending under sendMu and for receiving under recvMu
-  (("threadSafeOpenTunnelClient", "sendMu"), .lock), (("threadSafeOpenTunnelClient", "recvMu"), .lock),
-  (("threadSafeOpenTunnelClient", "TunnelService_OpenTunnelClient"), .chan),
-  (("threadSafeOpenReverseTunnelServer", "sendMu"), .lock), (("threadSafeOpenReverseTunnelServer", "recvMu"), .lock),
-  (("threadSafeOpenReverseTunnelServer", "TunnelService_OpenReverseTunnelServer"), .chan),
-  (("threadSafeOpenReverseTunnelClient", "sendMu"), .lock), (("threadSafeOpenReverseTunnelClient", "recvMu"), .lock),
-  (("threadSafeOpenReverseTunnelClient", "closed"), .mutex "threadSafeOpenReverseTunnelClient.sendMu"),
-  (("threadSafeOpenReverseTunnelClient", "TunnelService_OpenReverseTunnelClient"), .chan),
-  (("threadSafeOpenTunnelServer", "sendMu"), .lock), (("threadSafeOpenTunnelServer", "recvMu"), .lock),
-  (("threadSafeOpenTunnelServer", "TunnelService_OpenTunnelServer"), .chan)
-]
-
-def protOf (a : Access) : Option Prot := protections.lookup (a.strct, a.field)
-
-/-- an access is fine iff its field has a declared protection and the access obeys it -/
-def accessOK (a : Access) : Bool :=
-  match protOf a with
-  | none => false
-  | some p => obeys p a
-
-def violations (t : List Access) : List Access := t.filter (fun a => !accessOK a)
-
 /-- **Lock / publication discipline of the current sources.** -/
 theorem C15_discipline : violations accessTable = [] := by decide +kernel
 
+/-! ### blocking calls and the receive loops -/
+
+/-- **No potentially blocking call is made while holding a lock a receive loop
+    needs**: every carrier `Send`/`Recv`, every window-update / send callback
+    and every user callback in the current sources is invoked holding only
+    locks from its `callUnder` list (`C15_discipline`), and none of those lists
+    contains a receive-loop lock.  This is the code-level premise of
+    `C09_loop_never_blocks_fc` / `C03_no_hol` / C05's "a stalled stream cannot
+    stall the tunnel": `accept` can always take the locks it needs promptly. -/
+theorem C15_blocking_calls_hold_no_loop_lock :
+    (blockingAllowed.filter loopLocks.contains) = [] ∧
+    (accessTable.filter (fun a => a.how == "call" &&
+        (match protOf a with | some (.callUnder _) => true | _ => false) &&
+        a.held.any loopLocks.contains)) = [] := by decide +kernel
+
 /-! ### lock order -/
-
-/-- nodes reachable from `n` in at most `fuel` steps -/
-def reach (edges : List (String × String)) : Nat → List String → List String
-  | 0, front => front
-  | fuel + 1, front =>
-    let next := (edges.filter (fun e => front.contains e.1)).map (·.2)
-    reach edges fuel (front ++ next.filter (fun x => !front.contains x))
-
-/-- no lock is (transitively) acquired while it is already held -/
-def acyclic (edges : List (String × String)) : Bool :=
-  edges.all (fun e => !(reach edges edges.length [e.2]).contains e.1)
 
 /-- **The lock-order graph of the current sources has no cycle** (so no
     deadlock by lock inversion among the package's own mutexes). -/
 theorem C15_lock_order_acyclic : acyclic lockOrderEdges = true := by decide +kernel
+
+/-! ### why the discipline implies race freedom (the lockset argument, proved once) -/
+
+open TunnelModel.Lockset in
+/-- **Lockset theorem.**  In every well-formed execution (mutual exclusion
+    respected), two accesses by different goroutines made while each holds a
+    common mutex are ordered by happens-before. -/
+theorem C15_hb_of_common_lock (tr : Trace) (hwf : WF tr) (i j : Nat) (hij : i < j)
+    (hj : j < tr.length) (t u : Tid) (l : Lck)
+    (hi : (tr[i]?).map Ev.tid = some t) (hju : (tr[j]?).map Ev.tid = some u)
+    (htu : t ≠ u) (hhi : holds tr i t l) (hhj : holds tr j u l) : HB tr i j :=
+  Proofs.Lockset.hb_of_common_lock tr hwf i j hij hj t u l hi hju htu hhi hhj
+
+open TunnelModel.Lockset in
+/-- **Publication theorem** (`.published` rows): a write sequenced before
+    `close(c)` happens before a read sequenced after a receive that saw the close. -/
+theorem C15_hb_of_publication (tr : Trace) (i k m j : Nat) (t u : Tid) (c : Chn)
+    (hik : i < k) (hkm : k < m) (hmj : m < j) (hj : j < tr.length)
+    (hi : (tr[i]?).map Ev.tid = some t) (hk : tr[k]? = some (.close t c))
+    (hm : tr[m]? = some (.recv u c)) (hju : (tr[j]?).map Ev.tid = some u) :
+    HB tr i j :=
+  Proofs.Lockset.hb_of_publication tr i k m j t u c hik hkm hmj hj hi hk hm hju
+
+open TunnelModel.Lockset in
+/-- **Construction theorem** (`.init` rows): what a goroutine wrote before the
+    `go` statement happens before everything the started goroutine does. -/
+theorem C15_hb_of_go (tr : Trace) (hwf : WF tr) (i k j : Nat) (t u : Tid) (hik : i < k)
+    (hi : (tr[i]?).map Ev.tid = some t) (hk : tr[k]? = some (.go t u))
+    (hju : (tr[j]?).map Ev.tid = some u) : HB tr i j :=
+  Proofs.Lockset.hb_of_go_wf tr hwf i k j t u hik hi hk hju
+
+open TunnelModel.Lockset in
+/-- **Discipline ⇒ no data race**: if one mutex is held at every access to `x`
+    (what `C15_discipline` establishes syntactically for every `.mutex` row),
+    every two conflicting accesses to `x` in every well-formed execution are
+    ordered by happens-before. -/
+theorem C15_race_free_of_discipline (tr : Trace) (hwf : WF tr) (x : Var)
+    (hp : Protected tr x) :
+    ∀ i j, i ≠ j → conflict tr i j x → HB tr i j ∨ HB tr j i :=
+  Proofs.Lockset.race_free_of_discipline tr hwf x hp
 
 end Proofs.C15
